@@ -19,9 +19,14 @@ import re
 LB_RE = re.compile(r" lb=\d+")
 
 
+# further allocation entry points that go through the accounting in this check (verif_alloc.c, VERIF_WRAP_MORE)
+WRAP_MORE = ["-Wl,--wrap=strndup,--wrap=reallocarray,--wrap=asprintf,--wrap=vasprintf"]
+
+
 def build(cb):
     return cb.compile("drv_rdr_mem", [os.path.join(CDIR, "drv_rdr.c")] + cb.lib_sources() + common.alloc_sources(),
-                      extra=["-I" + CDIR, "-DLHASA_VERIF"], sanitize=True, libs=common.WRAP)
+                      extra=["-I" + CDIR, "-DLHASA_VERIF", "-DVERIF_WRAP_MORE"], sanitize=True,
+                      libs=common.WRAP + WRAP_MORE)
 
 
 def corpus_cases(ctx, rnd):
